@@ -336,7 +336,7 @@ func init() {
 
 func runC07TextFrozen(c *Ctx) {
 	p := c.P
-	n := 0
+	n, rewritten := 0, 0
 	for _, fn := range p.Funcs {
 		eachInstr(fn, func(_ *ssa.BasicBlock, _ int, in ssa.Instruction) {
 			st, ok := in.(*ssa.Store)
@@ -355,11 +355,26 @@ func runC07TextFrozen(c *Ctx) {
 			if _, isAlloc := fa.X.(*ssa.Alloc); isAlloc {
 				return // initialisation of a node being built
 			}
+			rewritten++
 			c.bad(FuncName(fn)+"|"+name+" rewritten", st.Pos(), name+" of an existing scalar node is overwritten: text, quoting and position of a node no longer describe the same piece of source, so positions computed from offsets in the text are wrong")
 		})
+		// the position object a node points to: s.Pos.Col++ moves the node as much as s.Pos = q does
+		eachInstr(fn, func(_ *ssa.BasicBlock, _ int, in ssa.Instruction) {
+			ld, ok := in.(*ssa.UnOp)
+			if !ok || ld.Op != token.MUL {
+				return
+			}
+			if f, _ := fieldLoad(ld); f != "String.Pos" {
+				return
+			}
+			for _, w := range posObjectWrites(ld, 0) {
+				rewritten++
+				c.bad(FuncName(fn)+"|position object of String.Pos rewritten", w.Pos(), "the position object an existing scalar node points to is written: text, quoting and position of a node no longer describe the same piece of source, so positions computed from offsets in the text are wrong")
+			}
+		})
 	}
-	if n > 0 {
-		c.ok("String|fields only set at construction", token.NoPos, fmt.Sprintf("%d stores, all into nodes under construction", n))
+	if n > 0 && rewritten == 0 {
+		c.ok("String|fields only set at construction", token.NoPos, fmt.Sprintf("%d stores, all into nodes under construction; no write through the Pos of a node", n))
 	}
 }
 
